@@ -20,6 +20,7 @@ import (
 //	       "P" DefinedIfInScope, use-loadtime (defined once bsd.prefs.mk is seen)
 //	       "U" no options, use-loadtime (may be undefined)
 //	       "L" DefinedIfInScope, use only (not usable at load time)
+//	       "N" AlwaysInScope|DefinedIfInScope|NonemptyIfDefined, use-loadtime
 type VerifCondVar struct {
 	Name string
 	Kind string
@@ -109,6 +110,8 @@ func VerifCondSimplifyLines(vars []VerifCondVar, lines []string, condIndex int) 
 			case "L":
 				opts = DefinedIfInScope
 				acl = "*.mk: use"
+			case "N":
+				opts = AlwaysInScope | DefinedIfInScope | NonemptyIfDefined
 			}
 			if v.List {
 				opts |= List
@@ -126,7 +129,7 @@ func VerifCondSimplifyLines(vars []VerifCondVar, lines []string, condIndex int) 
 		mklines := NewMkLines(loaded, nil, nil)
 		mklines.ForEach(func(mkline *MkLine) {
 			mklines.Tools.ParseToolLine(mklines, mkline, false, false)
-			if mkline.IsVarassign() {
+			if mkline.IsVarassign() && !mklines.indentation.IsConditional() {
 				mklines.checkAllData.vars.Define(mkline.Varname(), mkline)
 			}
 			if mkline.IsDirective() && (mkline.Directive() == "if" || mkline.Directive() == "elif") {
